@@ -109,6 +109,7 @@ type mach struct {
 	c          *Ctx
 	globals    map[*ssa.Global]*mv
 	onceDone   map[*mv]bool // sync.Once values whose function has run
+	heldLocks  map[*mv]int  // sync mutexes held by the run (syncModel); emptied when a top-level Call begins
 	inited     map[*ssa.Package]bool
 	symHeap    map[string]*mv
 	steps      int
@@ -174,6 +175,9 @@ func (m *mach) Call(fn *ssa.Function, args ...mv) (ret mv, out mOutcome) {
 			}
 		}
 	}()
+	if m.depth == 0 {
+		m.heldLocks = nil // a run that left the model may have kept its locks
+	}
 	ret = m.callFn(nil, fn, args, nil)
 	return ret, mOutcome{kind: "ok"}
 }
